@@ -29,8 +29,32 @@ partial def loop (h : IO.FS.Stream) (r : Replayer) (st : r.State) (n : Nat) : IO
     return 1
   | none => loop h r st' (n+1)
 
+/-- `driver mach all`: scenarios are independent (a `scenario` line resets the replayer), so after a
+divergence skip to the next scenario and go on: every diverging scenario is reported (at most 40). -/
+partial def loopAll (h : IO.FS.Stream) (r : Replayer) (st : r.State) (n : Nat) (bad : Nat) (skipping : Bool) : IO UInt32 := do
+  let line ← h.getLine
+  if line.isEmpty then
+    if bad = 0 then IO.println s!"OK {n}" else IO.println s!"DIVERGED {bad}"
+    return (if bad = 0 then 0 else 1)
+  let l := line.trimAscii.toString
+  if l.isEmpty || l.startsWith "#" then loopAll h r st (n+1) bad skipping else
+  if skipping && !l.startsWith "scenario " then loopAll h r st (n+1) bad true else
+  let (st', res) := r.step st l
+  match res with
+  | some msg =>
+    IO.println s!"DIVERGE line={n+1} {msg} :: {l}"
+    if bad + 1 ≥ 40 then
+      IO.println s!"DIVERGED {bad + 1}"
+      return 1
+    loopAll h r st' (n+1) (bad + 1) true
+  | none => loopAll h r st' (n+1) bad false
+
 def main (args : List String) : IO UInt32 := do
   match args with
+  | [name, "all"] =>
+    match replayers.lookup name with
+    | some r => loopAll (← IO.getStdin) r r.init 0 0 false
+    | none => IO.eprintln s!"unknown component {name}"; return 2
   | [name] =>
     match replayers.lookup name with
     | some r => loop (← IO.getStdin) r r.init 0
